@@ -82,8 +82,12 @@ def _cases_for(ds, rng, tag, api=False):
     hmax = [int(round(a ** b)) for a in area]
     yield {"k": 1408, "args": [ds, sq, stream, hmax, elv], "call": {"area": area, "upa_min": upa_min, "b": b}, "group": f"{tag}-floodplains"}
     if api:
-        yield {"k": 1410, "args": [ds, nets.topo_order(ds), [rng.randrange(2)], [rng.randrange(2)], [k], fdata, [], [-9999]],
-               "call": {"api": rng.choice(["vec", "ras"])}, "group": f"{tag}-api-moving"}
+        apim = rng.choice(["vec", "ras"])
+        # vector objects with fractional node areas (quarters): the main stem follows the larger upstream area even when the
+        # integer parts tie (round-6 seed: the running maximum kept in an integer array)
+        wq = [rng.choice([4, 5, 6, 7, 9, 10, 11]) for _ in range(n)] if apim == "vec" and rng.random() < 0.6 else []
+        yield {"k": 1410, "args": [ds, nets.topo_order(ds), [rng.randrange(2)], [rng.randrange(2)], [k], fdata, wq, [-9999]],
+               "call": {"api": apim}, "group": f"{tag}-api-moving" + ("-areas" if wq else "")}
 
 
 def cases(tier, rng):
@@ -166,7 +170,7 @@ def impl(case):
         return [_oq(v, a[7][0])] if st == "ok" else [[-2], [st]]
     if k == 1410:
         api = case["call"]["api"]
-        flw = (make_vector if api == "vec" else make_raster)(ds)
+        flw = make_vector(ds, area=np.array(a[6], dtype=np.float64) / 4.0) if (api == "vec" and a[6]) else (make_vector if api == "vec" else make_raster)(ds)
         data = np.array(a[5], dtype=np.float64)
         if api == "ras":
             data = data.reshape(1, n)
@@ -291,6 +295,15 @@ def oracle(case, out):
     if k in (1404, 1405, 1409, 1410):
         if k == 1410:
             upa = _uparea(ds)
+            if a[6]:      # node areas given (quarters): accumulate them
+                def _reach(x, j):
+                    while True:
+                        if x == j:
+                            return True
+                        if ds[x] == x or ds[x] < 0:
+                            return False
+                        x = ds[x]
+                upa = [(sum(a[6][x] for x in range(n) if ds[x] >= 0 and _reach(x, j)) if ds[j] >= 0 else -9999) for j in range(n)]
             main = _main(ds, upa)
             so = _strahler(ds) if a[2][0] else None
             median = a[3][0] == 1
